@@ -17,14 +17,16 @@ def scripts(rng, tier, n=None):
     for k in range(n):
         ssrc = rng.randrange(2, 1 << 32)
         p, _ = strat_policy(rng, k, ssrc=ssrc, valid=True)
-        wild = rng.random() < 0.35
+        wild = rng.random() < 0.35 and k % 3 != 1
         if wild:
             # wildcard policies on both sides: the working streams are clones of the template
             L = [p.line(1, ssrc_type=SSRC_ANY_OUT), p.line(2, ssrc_type=SSRC_ANY_IN), "create 1 1", "create 2 2"]
         else:
             L = [p.line(1), "create 1 1", "create 2 1"]
-        if not wild and rng.random() < 0.3:
-            st = rng.choice([100, 0x10000, 0x7ffffff0])
+        if not wild and (k % 3 == 1 or rng.random() < 0.2):
+            # every third script starts the sender's SRTCP index high: the index enters the IV in two 16-bit halves, and the
+            # upper half is zero below 2^16 (stratified: a random draw left high indices with confidentiality out for some seeds)
+            st = [0x10000, 0x12345, 0x7ffffff0, 0xfffe, 0x00ff00ff][(k // 3) % 5] if k % 3 == 1 else rng.choice([100, 0x10000, 0x7ffffff0])
             L.append(f"poke_rtcp 1 0 {H(ssrc)} {H(st)}")
         for i in range(8 if tier == "quick" else 30):
             pkt = rtcp_packet(ssrc, rand_key(rng, rng.choice([0, 4, 16, 20, 100, 4 * rng.randrange(0, 300)])), pt=rng.choice([200, 201]))
